@@ -35,6 +35,9 @@ def units(tier):
     from .c03 import TEXT_ENCODINGS
     for enc in TEXT_ENCODINGS:
         us.append({"kind": "text", "encoding": enc})
+    from .. import scale
+    for n in scale.sizes(tier):
+        us.append({"kind": "scale", "size": n})
     return us
 
 
@@ -253,6 +256,25 @@ def run_unit(unit, tier):
     if unit["kind"] == "terms":
         for t, tn, L in unit["terms"]:
             run_term(t, tn, L, tier, r)
+    elif unit["kind"] == "scale":
+        # the size axis: the encodings of large values, and the same with a non-canonical tail where the format ignores one
+        from .c03 import scale_cases, real_build, _BUDGET
+        n = unit["size"]
+        _BUDGET[0] = 60
+        for t, v in scale_cases(n):
+            d = T.mk(t)
+            b = real_build(d, v, {})
+            if b[0] != "ok":
+                continue
+            for data in (b[1], b[1] + b"\x00", b[1] + b"\x01\x02"):
+                r.states += 1
+                oc, vs = check_input(T.show(t), d, data, {}, "scale:" + T.sig_of(t), {"scale": [T.show(t)[:60], n, len(data)]})
+                r.case(nontrivial=oc not in ("rejected",), outcome=oc, transitions=3, validated=1)
+                for x in vs:
+                    x["detail"] = x["detail"][:500]
+                    r.violation(x["sig"], x["case"], x["detail"])
+        _BUDGET[0] = 3
+        r.sample({"scale_size": n, "formats": len(scale_cases(64))})
     elif unit["kind"] == "text":
         # the text axis (see c03.TEXTS / RAW_TEXT): every string framing on every well-formed, borderline and malformed sequence
         from .c03 import text_space
@@ -276,6 +298,8 @@ def run_unit(unit, tier):
 
 
 def replay(case):
+    if "scale" in case:
+        return [v for v in run_unit({"kind": "scale", "size": case["scale"][1]}, "quick").violations if v["case"] == case]
     if "gallery" in case:
         fmt, files = gallery_format(case["gallery"])
         f = os.path.join(REPO, case["file"])
